@@ -189,7 +189,7 @@ CHAINS = [["ASCIIHexDecode", "DCTDecode"], ["ASCII85Decode", "FlateDecode"], ["F
           ["CCITTFaxDecode"], ["ASCIIHexDecode", "JBIG2Decode"]]
 
 
-def library_doc(rng, chains, compressed=False, all_images=False):
+def library_doc(rng, chains, compressed=False, all_images=False, updated=False):
     streams = {}
     objs = {
         1: {"Type": Name("Catalog"), "Pages": Ref(2)},
@@ -225,8 +225,13 @@ def library_doc(rng, chains, compressed=False, all_images=False):
         entries = {}
         for num, v in objs.items():
             entries[num] = Obj(v) if num in streams or num == 1 else Comp(v)
-        rev = Revision(entries, fmt="stream", trailer={"Root": Ref(1)})
-        data, _ = write_file([rev])
+        xnum = max(objs) + 1
+        revs = [Revision(entries, fmt="stream", trailer={"Root": Ref(1)}, xref_num=xnum)]
+        if updated:
+            # an incremental update whose cross-reference stream REDEFINES the number of the first one (legal: the update replaces
+            # that object): the stream cache is keyed by object number (finding C12-d)
+            revs.append(Revision({5: Obj(dict(objs[5], BaseFont=Name("Courier")))}, fmt="stream", trailer={"Root": Ref(1)}, xref_num=xnum))
+        data, _ = write_file(revs)
     else:
         data = D.build_file(objs)
     return data, streams, sorted(objs)
@@ -239,14 +244,15 @@ OBJ_KINDS = [(0, 10), (0, 11), (0, 13), (0, 17), (0, 18), (1, 100)]
 def library_scenarios(rng, tier):
     out = []
     n_docs = 3 if tier == "quick" else 12
-    for di in range(n_docs):
-        compressed = di % 3 == 2
+    for di in range(n_docs + 1):
+        compressed = di % 3 == 2 or di == n_docs
+        updated = di == n_docs              # one more document: compressed, with an update that re-uses the xref stream's number
         chains = [rng.choice(CHAINS) for _ in range(rng.randint(3, 5))]
         if di < 3:
             chains = CHAINS[di::3]          # every chain appears in the first three documents
-        data, streams, ids = library_doc(rng, chains, compressed, all_images=di < 3)
+        data, streams, ids = library_doc(rng, chains, compressed, all_images=di < 3, updated=updated)
         opts = b"t" if di % 2 else b"s"
-        tags = ["library", "compressed" if compressed else "direct"]
+        tags = ["library", "compressed" if compressed else "direct"] + (["updated-same-xref-number"] if updated else [])
         model = not compressed
         for r in sorted(streams):
             if tier == "thorough":
@@ -347,6 +353,8 @@ def witness_case(f, c):
         c.check = spec_check(e, calls)
     if f.get("tags"):
         c.tags |= set(f["tags"])
+    if f.get("model") is False:
+        c.model = False          # documents outside the model's reach (compressed objects): judged by the specification side only
     return c
 
 
